@@ -8,4 +8,9 @@ import RzmqModel.Props.C16
 #print axioms Rzmq.C16.bus_only_actor_misses_the_event
 #print axioms Rzmq.C16.closed_socket_never_hangs
 #print axioms Rzmq.C16.unanswered_mailbox_hangs
+#print axioms Rzmq.C16.parking_sites_as_proved
+#print axioms Rzmq.C16.parked_senders_are_released
+#print axioms Rzmq.C16.parked_senders_all_accounted_for
+#print axioms Rzmq.C16.notify_one_strands_the_third_sender
+#print axioms Rzmq.C16.unreached_site_strands_everyone
 #print axioms Rzmq.C16.names_are_released
